@@ -198,35 +198,84 @@ def run(ctx):
         tb = ctx.fn(f"{CMD}.{cname}.tobytes")
         ts = summarize(prog, tb)
         loops = [l for l in ast.walk(tb.node) if isinstance(l, ast.For) and l in ts.loops]
-        ok = len(loops) == 1
+        acc_lay = coll = None
+        recs = []            # layout of the record appended, one per way of reaching the next record
+        if len(loops) == 1:
+            # statement form: payload = prefix; for x in coll: payload += record
+            info = ts.loops[loops[0]]
+            acc = None
+            for k, v in info["entry"].env.items():
+                if k in ("<return>",) or "." in k:
+                    continue
+                try:
+                    lv = flatten(L.layout(v))
+                except AnalysisError:
+                    continue
+                if len(lv) == 2 and isinstance(lv[0], Const) and lv[0].b in (b"\xb0", b"\xb1") and isinstance(lv[1], Byte):
+                    acc, acc_lay = k, lv
+            if acc is not None:
+                coll = strip(ts.ta.terms_at[loops[0].iter])
+                lv0 = ("loopvar", acc, loops[0].lineno)
+                for st in info["ends"] + info["continues"]:
+                    v = st.env.get(acc)
+                    rec = None
+                    if v is not None:
+                        parts = []
+
+                        def cat(x):
+                            x2 = x
+                            if x2[0] == "bin" and x2[1] == "+":
+                                cat(x2[2]), cat(x2[3])
+                            else:
+                                parts.append(x2)
+                        cat(v)
+                        if parts and parts[0] == lv0:
+                            rec = []
+                            for ptm in parts[1:]:
+                                rec += L.layout(ptm)
+                            rec = flatten(rec)
+                    recs.append(rec)
+        elif not loops:
+            # expression form: payload = prefix + b"".join(record for x in coll)
+            rets = [t for _pc, t, node, _st in ts.returns if node is not None and call_is(t, f"{BASE}.tobytes") and len(t[2]) == 2]
+            parts = []
+
+            def cat2(x):
+                x = strip(x) if x[0] != "call" else x
+                if x[0] == "bin" and x[1] == "+":
+                    cat2(x[2]), cat2(x[3])
+                else:
+                    parts.append(x)
+            if len(rets) == 1:
+                cat2(rets[0][2][1])
+            joins = [x for x in parts if x[0] == "call" and x[1][0] == "meth" and x[1][2] == "join" and x[1][1] == ("const", b"") and len(x[2]) == 1
+                     and strip(x[2][0])[0] == "comp"]
+            if len(joins) == 1 and parts[-1] is joins[0]:
+                comp = strip(joins[0][2][0])
+                gens = comp[3]
+                if len(gens) == 1 and not gens[0][2]:
+                    try:
+                        pre = []
+                        for ptm in parts[:-1]:
+                            pre += L.layout(ptm)
+                        acc_lay = flatten(pre)
+                        recs.append(flatten(L.layout(comp[2])))
+                        coll = strip(gens[0][1])
+                    except AnalysisError:
+                        acc_lay = None
+        ok = acc_lay is not None or len(loops) == 1
         ctx.ob("C12.f", tb.qual, ok, f"{cname}: one record loop", func=tb.qual, file=tb.module.rel, construct="record loop", fail=f"{cname}: record loop not found")
         if not ok:
             continue
         ctx.count("property_commands")
-        info = ts.loops[loops[0]]
-        head_v = info["entry"].env.get("payload")
-        name = None
-        for k, v in info["entry"].env.items():
-            pass
-        # the accumulating buffer: local whose entry layout is [B0|B1, count]
-        acc = None
-        for k, v in info["entry"].env.items():
-            if k in ("<return>",) or "." in k:
-                continue
-            try:
-                lv = flatten(L.layout(v))
-            except AnalysisError:
-                continue
-            if len(lv) == 2 and isinstance(lv[0], Const) and lv[0].b in (b"\xb0", b"\xb1") and isinstance(lv[1], Byte):
-                acc, acc_lay = k, lv
-        ctx.ob("C12.f", tb.qual, acc is not None, f"{cname}: payload starts with the id byte and a count byte", func=tb.qual, file=tb.module.rel,
+        pre_ok = acc_lay is not None and len(acc_lay) == 2 and isinstance(acc_lay[0], Const) and acc_lay[0].b in (b"\xb0", b"\xb1") and isinstance(acc_lay[1], Byte)
+        ctx.ob("C12.f", tb.qual, pre_ok, f"{cname}: payload starts with the id byte and a count byte", func=tb.qual, file=tb.module.rel,
                construct="payload prefix", fail=f"{cname}: payload prefix is not [0x{'B0' if with_value else 'B1'}, count]")
-        if acc is None:
+        if not pre_ok:
             continue
         want_id = b"\xb0" if with_value else b"\xb1"
         ctx.ob("C12.f", tb.qual, acc_lay[0].b == want_id, f"{cname}: request id 0x{want_id.hex().upper()}", func=tb.qual, file=tb.module.rel,
                construct="request id", fail=f"{cname}: request id is 0x{acc_lay[0].b.hex()}")
-        coll = strip(ts.ta.terms_at[loops[0].iter])
         if call_is(coll, "dict.items") or (coll[0] == "call" and coll[1][0] == "meth" and coll[1][2] == "items"):
             coll = strip(coll[1][1])
         cnt = strip(acc_lay[1].term)
@@ -234,27 +283,9 @@ def run(ctx):
                func=tb.qual, file=tb.module.rel, construct="count byte", detail={"count": show(cnt), "iterates": show(coll)},
                fail=f"{cname}: count byte `{show(cnt)[:60]}` is not the number of records appended (`{show(coll)[:60]}`)")
         # record appended per iteration
-        lv0 = ("loopvar", acc, loops[0].lineno)
-        for st in info["ends"] + info["continues"]:
-            v = st.env.get(acc)
-            rec = None
-            if v is not None:
-                parts = []
-
-                def cat(x):
-                    x2 = x
-                    if x2[0] == "bin" and x2[1] == "+":
-                        cat(x2[2]), cat(x2[3])
-                    else:
-                        parts.append(x2)
-                cat(v)
-                if parts and parts[0] == lv0:
-                    rec = []
-                    for ptm in parts[1:]:
-                        rec += L.layout(ptm)
-                    rec = flatten(rec)
+        for rec in recs:
             good = rec is not None and len(rec) >= 1 and isinstance(rec[0], Field) and rec[0].n == Lin(2) and rec[0].order == "little" \
-                and strip(rec[0].term)[0] in ("iter", "item")
+                and strip(rec[0].term)[0] in ("iter", "item", "bound")
             if good and with_value:
                 good = len(rec) == 3 and isinstance(rec[1], Byte) and call_is(strip(rec[1].term), "len") and isinstance(rec[2], Opaque) \
                     and rec[2].keyterm is not None and strip(strip(rec[1].term)[2][0]) == strip(rec[2].keyterm) \
